@@ -182,6 +182,34 @@ PROPS = {
                       "cell_to_boundary itself is proved.",
         "technique": "Verus contract on the extracted real cell_to_boundary with the float layer as assumed contract boundary",
     },
+    "C10": {
+        "units": ["compact"],
+        "rlimit": 30,
+        "level": "proof",
+        "assumptions": STD_ASSUME + [
+            "proved on the class where the property holds in the pinned tree: non-overlapping inputs of valid cells containing no "
+            "resolution-0 cell and not the world cell (max_class). Inputs that mix base cells with other faces' quintants are a genuine "
+            "defect of a5-rs (known finding F1: numeric ID order interleaves base-cell IDs with other faces' quintant IDs) and are "
+            "replayed on the real code each run",
+            "std HashSet / sort_unstable under assumed contracts (rule R5), see C08",
+            "decided: (maximal) the result contains no complete sibling group; (fixed point) on the result of ANY call the sibling "
+            "test fails at every position. Idempotence and canonicity as sets are consequences via the uniqueness of the maximal "
+            "antichain with a given cover; that uniqueness lemma is NOT mechanised (see DESIGN.md) - a bounded stand-in "
+            "(compact_max replay op: normal-form comparison and re-compaction on generated antichains) covers those two sentences",
+        ],
+        "bounded_ops": [
+            {"op": "compact_max", "budget": 400, "what": "idempotence and canonicity (result == unique normal form, recompaction changes "
+             "nothing as a set) on generated non-overlapping inputs of the proved class: bounded stand-in for the non-mechanised "
+             "uniqueness lemma"},
+        ],
+        "search_ops": ["compact_max"],
+        "level_text": "Unbounded proof (Verus/Z3) on the real compact(): invariant 'the working list is ordered by leaf intervals' "
+                      "(the ID interval a cell's descendants occupy; a parent's interval is tiled by its children's) plus 'in the "
+                      "last pass the sibling test failed at every position' give: every complete sibling group would sit at "
+                      "consecutive positions starting with a first child and would have been merged - so none survives.",
+        "level_note": "Class restriction and F1: see assumptions. The proof reuses the C20 interval lemmas (subtree == ID interval).",
+        "technique": "Verus loop invariants (interval order, failed-test prefix) on the extracted real compact() + tiling lemmas",
+    },
     "C13": {
         "units": ["memo"],
         "level": "proof",
@@ -350,6 +378,6 @@ NOT_APPLICABLE = {
     "C16": "local area preservation needs real analysis of the IVEA formulas over f64 code; out of reach",
     "C19": "authalic series inverse/monotone/odd to 1e-12: Clenshaw sums of sin/cos over f64; out of reach",
  "C07": "not built yet", 
-"C10": "not built yet",  
+  
   
 }
